@@ -21,6 +21,11 @@
 //	eof         multi-frame streams whose last read returns its data together with io.EOF
 //
 // A history (Case.Hist) is replayable: it is a seed plus a list of steps.
+//
+// Second round (third red-team wave, body-only changes keyed on what the generators did not vary): legs2.go —
+// held (decoded packets kept and judged again after later reads, plain and bufio readers), shared (sender's scratch
+// buffers), forgedcrc (CRC-32 forced to 0 / ffffffff / 1 …, cross-decoding with an independent encoder and decoder),
+// cryptors (custom BlockCryptor implementations), wordthr (word-extreme thresholds). All in the normal tiers.
 package main
 
 import (
